@@ -200,6 +200,79 @@ theorem nodupIds_uids {L : List Route} (h : (L.map (·.id)).Nodup) : UIds L ∧ 
     · simp only [List.nodup_cons]
       exact ⟨fun ha => h.1 a ha rfl, ihN⟩
 
+/-! ### report-once by id -/
+
+theorem pushNew_nil (acc : List Route) : pushNew acc [] = acc := rfl
+
+theorem pushNew_cons (acc : List Route) (r : Route) (new : List Route) :
+    pushNew acc (r :: new) =
+      pushNew (if acc.any (fun x => x.id == r.id) then acc else acc ++ [r]) new := rfl
+
+theorem pushNew_mem (L : List Route) (hU : UIds L) (new : List Route) (x : Route) :
+    ∀ acc, (∀ y ∈ acc, y ∈ L) → (∀ y ∈ new, y ∈ L) →
+      (x ∈ pushNew acc new ↔ x ∈ acc ∨ x ∈ new) := by
+  induction new with
+  | nil => intro acc _ _; simp [pushNew_nil]
+  | cons r new ih =>
+    intro acc hacc hnew
+    rw [pushNew_cons]
+    have hr : r ∈ L := hnew r (List.mem_cons_self ..)
+    have hnew' : ∀ y ∈ new, y ∈ L := fun y hy => hnew y (List.mem_cons_of_mem _ hy)
+    by_cases hany : acc.any (fun y => y.id == r.id) = true
+    · simp only [hany, if_true]
+      rw [ih acc hacc hnew']
+      have hin : r ∈ acc := by
+        rw [List.any_eq_true] at hany
+        obtain ⟨y, hy, hid⟩ := hany
+        have : y = r := hU y (hacc y hy) r hr (by simpa using hid)
+        exact this ▸ hy
+      constructor
+      · rintro (h | h)
+        · exact Or.inl h
+        · exact Or.inr (List.mem_cons_of_mem _ h)
+      · rintro (h | h)
+        · exact Or.inl h
+        · rcases List.mem_cons.mp h with h | h
+          · exact Or.inl (h ▸ hin)
+          · exact Or.inr h
+    · simp only [hany, if_false, Bool.false_eq_true]
+      rw [ih (acc ++ [r]) (by
+        intro y hy
+        rcases List.mem_append.mp hy with hy | hy
+        · exact hacc y hy
+        · simp at hy; exact hy ▸ hr) hnew']
+      simp only [List.mem_append, List.mem_singleton, List.mem_cons, List.not_mem_nil, or_false]
+      constructor
+      · rintro ((h | h) | h)
+        · exact Or.inl h
+        · exact Or.inr (Or.inl h)
+        · exact Or.inr (Or.inr h)
+      · rintro (h | h | h)
+        · exact Or.inl (Or.inl h)
+        · exact Or.inl (Or.inr h)
+        · exact Or.inr h
+
+theorem pushNew_nodupIds (new : List Route) :
+    ∀ acc, (acc.map (·.id)).Nodup → ((pushNew acc new).map (·.id)).Nodup := by
+  induction new with
+  | nil => intro acc h; exact h
+  | cons r new ih =>
+    intro acc h
+    rw [pushNew_cons]
+    by_cases hany : acc.any (fun y => y.id == r.id) = true
+    · simp only [hany, if_true]; exact ih acc h
+    · simp only [hany, if_false, Bool.false_eq_true]
+      apply ih
+      rw [List.map_append, List.nodup_append]
+      refine ⟨h, by simp, ?_⟩
+      intro a ha b hb hab
+      simp only [List.map_cons, List.map_nil, List.mem_singleton] at hb
+      subst hab
+      apply hany
+      rw [List.any_eq_true]
+      obtain ⟨y, hy, hid⟩ := List.mem_map.mp ha
+      exact ⟨y, hy, by simp [hid, hb]⟩
+
 /-! ### the law interface of a layer -/
 
 /-- What is proved about every matcher layer.  `Repr m L`: state `m` represents the list `L` of
@@ -224,6 +297,6 @@ structure MLaws (I : MOps) where
     Repr (I.batchRemove ids m) (L.filter (fun r => !ids.contains r.id))
   mem_match : ∀ m L q r, Repr m L → UIds L → (r ∈ I.matchReq m q ↔ r ∈ L ∧ sat L r q = true)
   nodup_match : ∀ m L q, Repr m L → UIds L → (I.matchReq m q).Nodup
-  mem_trace : ∀ m L q r, Repr m L → UIds L → (r ∈ routesOfList (I.trace m q) ↔ r ∈ I.matchReq m q)
+  mem_trace : ∀ m L q r, Repr m L → UIds L → (r ∈ rawRoutesOfList (I.trace m q) ↔ r ∈ I.matchReq m q)
 
 end Rio.Router
